@@ -2,11 +2,12 @@
 import itertools
 from harness import coqio as q
 from harness.props import _dist_common as dc
+from harness.props import _ilp_rows as ir
 
 ID = "C24"
-COQ_REQUIRE = ["M_Dist", "M_Ilp"]
-COQ_CASE_TYPE = "M_Ilp.case"
-COQ_CHECK = "M_Ilp.check_case"
+COQ_REQUIRE = ["M_Dist", "M_Ilp", "M_IlpRows"]
+COQ_CASE_TYPE = "M_IlpRows.case"
+COQ_CHECK = "M_IlpRows.check_case"
 OBLIGATIONS = ["oilp_feasible_iff_hard_rules", "fgdp_feasible_iff_hard_rules", "oilp_objective_is_cost",
                "fgdp_objective_is_cost", "oilp_optimal_is_min_cost", "fgdp_optimal_is_min_cost",
                "oilp_parallel_links_refuted", "fgdp_asymmetric_refuted"]
@@ -216,8 +217,9 @@ def run_impl(c):
         # which computations the method pre-hosted (they have no x_/f_ variable)
         fixed = [x for x in comps if not any(("x_%s_%s" % (x, a)) in names or ("f_%s_%s" % (x, a)) in names
                                              for a in anames)]
+    ilp = ir.capture(pb, c["method"], comps, anames, view["links"]) if pb is not None else None
     return dict(graph=view, result=res, table=table, captured=pb is not None, fixed=fixed,
-                status=cap[0][1] if cap else None)
+                status=cap[0][1] if cap else None, ilp=ilp)
 
 
 # ------------------------------------------------------------------ oracle: brute force, own cost model
@@ -292,11 +294,31 @@ def brute(c, o):
     return best, arg
 
 
+def rows_oracle(c, o):
+    """row-level reading of the captured problem (see _ilp_rows.row_oracle)"""
+    ilp = o.get("ilp")
+    if ilp is None or "unmodelled" in ilp:
+        return None
+    comps = [n[0] for n in o["graph"]["nodes"]]
+    anames = [a["name"] for a in c["agents"]]
+    _, hosting, _ = _agent_tables(c)
+    prod = list(itertools.product(range(len(anames)), repeat=len(comps)))
+
+    def zero_agent(x):
+        z = [k for k in range(len(anames)) if hosting(k, x) == 0]
+        return z[0] if len(z) == 1 else None
+    return ir.row_oracle(c["method"], ilp, comps, anames, [prod[r["i"]] for r in o["table"]],
+                         lambda D: hard_rules(c, o, dict(zip(comps, D))), zero_agent)
+
+
 def oracle(c, o):
     res = o["result"]
     comps = [n[0] for n in o["graph"]["nodes"]]
     names = [a["name"] for a in c["agents"]]
     best, arg = brute(c, o)
+    msg = rows_oracle(c, o)
+    if msg:
+        return msg
     # the real distribution_cost agrees with the stated cost model on every listed distribution
     prod = None
     for row in o["table"]:
@@ -343,7 +365,11 @@ def coq_case(c, o):
         feas = q.opt(r.get("feas"), q.b) if "feas" in r else "None"
         obj = "(Some %s)" % q.pair(q.z(r["obj"][0]), q.z(r["obj"][1])) if r.get("obj") else "None"
         rows.append("(mkRow %s %s %s %s)" % (D, q.pair(q.z(r["cost"][0]), q.z(r["cost"][1])), feas, obj))
-    return "(mkCase %s %s %s)" % ("MOilp" if c["method"] == "oilp_cgdp" else "MFgdp", G, q.lst(rows))
+    base = "(mkCase %s %s %s)" % ("MOilp" if c["method"] == "oilp_cgdp" else "MFgdp", G, q.lst(rows))
+    ilp = o.get("ilp")
+    if ilp is not None and "unmodelled" in ilp:
+        return None
+    return "(mkCaseR %s %s)" % (base, ir.obs_term(ilp))
 
 
 # ------------------------------------------------------------------ known findings
